@@ -52,6 +52,10 @@ CHECKS = {
             "TLC enumerates every css class string up to length 3-4 and (CssGrammar.tla) well-formed stylesheets and inline declaration lists with the units the statement prescribes; the harness parses each in both modes, locates every reported token in css.Lexer's token list of the same input, and TLC validates each unit against CssStream.tla: End matches the innermost Begin and depth stays >= 0 while no parse error was reported, everything is closed before the end-of-input report, reported tokens are input tokens in strictly increasing source order (with the statement's rewritings), and the stream ends with ErrorGrammar/io.EOF; generated stylesheets are additionally compared unit by unit (type, lower-cased name, Values with whitespace exactly where expected).",
             "Bounded input length / document size; DESIGN.md C08 fixes the reading of 'punctuation'. Values() of End units is not judged.",
             "DESIGN.md §4 C08"),
+    "C04": ("TLA+ generator with a semantic oracle (ScopeSem.tla): programs as sequences of scope constructs, the ECMAScript resolution function defined in TLA+, all programs up to a size enumerated by TLC and larger ones sampled with -simulate; the partition observed on the real tree (fresh names + printing, re-parse, Uses) judged by TLC trace validation (ScopeTrace.tla)",
+            "TLC enumerates every program of up to 4-5 items (var/let/const declarations, uses, arrow-head look-alikes, and brackets of nine scope kinds -- function declarations/expressions, arrows, blocks, for-let/for-var heads, catch, class declarations/expressions -- with parameter lists and defaults) over two names, and samples larger programs over three names; for each it computes which binding every identifier occurrence denotes under the ECMAScript rules the statement lists, or that the program must be rejected; the harness parses the spelled program, gives every declared Var a fresh name, prints, reads the identifiers back in order, re-parses the renamed text and compares Uses with printed occurrences; TLC validates that the observed partition is isomorphic to the oracle's.",
+            "Programs whose treatment the statement leaves open are not generated (listed in the evidence assumptions). Four recorded findings (class-expression names, default naming a later parameter, use-before-let in a for-var loop body, body use merged with a same-named outer reference in a parameter default).",
+            "DESIGN.md §4 C04"),
 }
 NOT_APPLICABLE = {
 }
